@@ -26,6 +26,7 @@ ASSUMPTIONS = ["ACL sections have >= 1 body line and unique names; group names a
 
 def render_config(case, extra_indent: int = 0, comments: bool = False):
     platform = case["platform"]
+    version = (case.get("opts") or {}).get("version", "0")  # port names are spelled for the version of the call
     out = []
     for sec in case["sections"]:
         ind = " " * (sec.get("ind", 1) + extra_indent)
@@ -36,7 +37,7 @@ def render_config(case, extra_indent: int = 0, comments: bool = False):
             acl = sec["acl"]
             out.append(G.acl_header(acl))
             for it in acl["items"]:
-                out.append(ind + G.item_line(it, platform, noise=False))
+                out.append(ind + G.item_line(it, platform, version, noise=False))
         elif kind == "group":
             out.append(("object-group network " if platform == "ios" else "object-group ip address ") + sec["name"])
             if sec.get("desc"):
@@ -169,7 +170,7 @@ def compare_acls(v: Verdict, case, got, want, where, detail):
         if a.type != w["type"] or a.platform != platform:
             v.fail(f"{where}:type-or-platform", dict(d, got=[a.type, a.platform]))
         try:
-            _, flat = G.read_flat(a.line, platform, strict=False)
+            _, flat = G.read_flat(a.line, platform, (case.get("opts") or {}).get("version", "0"), strict=False)
         except R.RefError as ex:
             v.fail(f"{where}:acl-text-unreadable", dict(d, text=a.line, why=str(ex)[:200]))
             return
@@ -247,10 +248,11 @@ def judge(case) -> Verdict:
         return v
     # aces(): concatenation of all ACL bodies in config order
     # (without group_by: grouping the lines of several ACLs at once would merge equal headings across ACLs)
-    items = list(_flat(cisco_acl.aces(config, platform=platform)))
+    ver = opts.get("version", "0")
+    items = list(_flat(cisco_acl.aces(config, platform=platform, version=ver)))
     text = ("ip access-list extended X\n" if platform == "ios" else "ip access-list X\n") + "\n".join(" " + o.line for o in items)
     try:
-        _, flat = G.read_flat(text, platform, strict=False) if items else (None, [])
+        _, flat = G.read_flat(text, platform, ver, strict=False) if items else (None, [])
     except R.RefError as ex:
         v.fail("aces:unreadable", dict(detail, why=str(ex)[:200]))
         return v
